@@ -32,7 +32,14 @@ namespace
         RunWork* w = static_cast<RunWork*>(arg);
         TaskWork& t = w->tasks[size_t(task)];
         for (size_t i = 0; i < t.ops.size(); ++i)
-            if (t.entries[i]) t.entries[i]->fn(t.ops[i], t.outs[i]);
+            if (t.entries[i] && !simrt::task_ops(task)[i].ran_nested) t.entries[i]->fn(t.ops[i], t.outs[i]);
+    }
+
+    void nested_body(void* arg, int task, int op)
+    {
+        RunWork* w = static_cast<RunWork*>(arg);
+        TaskWork& t = w->tasks[size_t(task)];
+        if (op >= 0 && size_t(op) < t.ops.size() && t.entries[size_t(op)]) t.entries[size_t(op)]->fn(t.ops[size_t(op)], t.outs[size_t(op)]);
     }
 }
 
@@ -66,6 +73,7 @@ RunResult exec_plan(const Plan& p, const ExecFlags& f)
             rec.wr_quota = po.stream_fail_after; rec.wr_fail_mode = po.stream_fail_mode;
             rec.alloc_fail_at = po.alloc_fail_at;
             rec.lex_fail_call = po.lex_fail_call;
+            rec.nest_at = po.nest_at;
             for (const ref::LexAns& a : orr.rend.script) rec.script.push_back(simrt::LexAnswer{ a.pos, a.idx, a.len });
             // budgets (bounded termination): generous multiples of the size of the input; the properties
             // that judge termination tighten them from the reference's own step count
@@ -84,7 +92,9 @@ RunResult exec_plan(const Plan& p, const ExecFlags& f)
         }
     }
     int64_t tsan0 = simrt::tsan_reports();
+    simrt::set_nest_callback(&nested_body, &w);
     simrt::run_tasks(&task_body, &w);
+    simrt::set_nest_callback(nullptr, nullptr);
     rr.tsan_reports = simrt::tsan_reports() - tsan0;
     for (int t = 0; t < nt; ++t)
     {
@@ -94,7 +104,13 @@ RunResult exec_plan(const Plan& p, const ExecFlags& f)
             rr.tasks[size_t(t)][i].out = w.tasks[size_t(t)].outs[i];
             rr.tasks[size_t(t)][i].rec = recs[i];
         }
-        if (!rr.tasks[size_t(t)].empty()) rr.tasks[size_t(t)].back().rec.live_after = simrt::task_live(t);
+        if (!rr.tasks[size_t(t)].empty())
+        {
+            // what is still alive when the task has ended belongs to its last TOP-LEVEL call
+            size_t last = rr.tasks[size_t(t)].size() - 1;
+            while (last > 0 && rr.tasks[size_t(t)][last].rec.ran_nested) --last;
+            rr.tasks[size_t(t)][last].rec.live_after = simrt::task_live(t);
+        }
     }
     rr.hash = simrt::run_hash();
     // outcomes are part of the history as well
